@@ -60,11 +60,12 @@ theorem guard_or2 (a b : Prop) [Decidable a] [Decidable b] :
 theorem enterNewRound_eq_gen (cfg : Config) (nb : Option Nat) (h r : Nat) (σ : State) (hr : r + 1 < 2 ^ 32) :
     enterNewRound cfg nb h r σ =
       if Gen.C03.enterNewRoundGuard σ.height σ.round σ.step.toNat h r then σ
+      else if Gen.C03.enterNewRoundInCommit σ.step.toNat then σ
       else
         let σ1 := { σ with round := r, step := .newRound }
         let σ2 := if Gen.C03.newRoundKeepsProposal r then σ1
                   else { σ1 with proposal := none, pblock := none, parts := none }
-        let σ3 := { setRound (n cfg) (Gen.C03.newRoundTracksRound r) σ2 with ttp := false }
+        let σ3 := releaseStale cfg { setRound (n cfg) (Gen.C03.newRoundTracksRound r) σ2 with ttp := false }
         if Gen.C03.newRoundWaitsForTxs cfg.waitTxs r then
           if cfg.emptyInterval then schedule h r .newRound σ3 else σ3
         else enterPropose cfg nb h r σ3 := by
@@ -76,13 +77,19 @@ theorem enterNewRound_eq_gen (cfg : Config) (nb : Option Nat) (h r : Nat) (σ : 
       decide (σ.height ≠ h ∨ r < σ.round ∨ (σ.round = r ∧ σ.step ≠ .newHeight)) := by
     unfold Gen.C03.enterNewRoundGuard
     simp only [step_ne_newHeight, Bool.decide_or, Bool.decide_and, Bool.or_assoc]
+  have e3 : Gen.C03.enterNewRoundInCommit σ.step.toNat = decide (σ.step = .commit) := by
+    unfold Gen.C03.enterNewRoundInCommit
+    simp only [step_eq_commit]
   unfold enterNewRound newRoundPrep
-  rw [e1, e2]
+  rw [e1, e2, e3]
   simp only [Gen.C03.newRoundKeepsProposal, Gen.C03.newRoundWaitsForTxs, decide_eq_true_eq]
   by_cases hg : σ.height ≠ h ∨ r < σ.round ∨ (σ.round = r ∧ σ.step ≠ .newHeight)
   · simp only [hg, if_true]
   · simp only [hg, if_false]
-    by_cases h1 : r = 1 <;> simp [h1]
+    by_cases hc : σ.step = .commit
+    · simp only [hc, if_true]
+    · simp only [hc, if_false]
+      by_cases h1 : r = 1 <;> simp [h1]
 
 /-- `cs.config.CreateEmptyBlocksInterval > 0` is what `Config.emptyInterval` stands for -/
 theorem gen_emptyInterval (d : Int) : Gen.C03.newRoundSchedulesEmptyBlock d = decide (0 < d) := by
@@ -143,12 +150,16 @@ theorem enterPrevoteWait_eq_gen (h r : Nat) (σ : State) :
 theorem enterPrecommit_eq_gen (cfg : Config) (h r : Nat) (σ : State) :
     enterPrecommit cfg h r σ =
       if Gen.C03.enterPrecommitGuard σ.height σ.round σ.step.toNat h r then σ
+      else if Gen.C03.enterPrecommitInCommit σ.step.toNat then σ
       else { doPrecommit cfg r σ with round := r, step := .precommit } := by
   have e : Gen.C03.enterPrecommitGuard σ.height σ.round σ.step.toNat h r =
       decide (σ.height ≠ h ∨ r < σ.round ∨ (σ.round = r ∧ Step.precommit.toNat ≤ σ.step.toNat)) := by
     exact guard_or3 _ _ _ _
+  have e3 : Gen.C03.enterPrecommitInCommit σ.step.toNat = decide (σ.step = .commit) := by
+    unfold Gen.C03.enterPrecommitInCommit
+    simp only [step_eq_commit]
   unfold enterPrecommit
-  rw [e]
+  rw [e, e3]
   simp only [decide_eq_true_eq]
 
 theorem enterPrecommitWait_eq_gen (h r : Nat) (σ : State) :
@@ -487,5 +498,115 @@ theorem setRound_eq_gen (nv round : Nat) (σ : State) (h1 : 1 ≤ σ.hvsRound) (
         with hvsRound := round } := by
   rw [(gen_hvsSetRound σ.hvsRound round h1 hr).1]
   rfl
+
+
+/-! ### the unlock site of `enterNewRound` (F36 fix): the scan for a polka seen before a round skip -/
+
+/-- the Go loop `for r := from; r <= round; r++ { if unlocks(r) { …; break } }` as a function:
+`k` iterations left, current `r`; `true` = the lock is released -/
+def goScan (unlocks : Nat → Bool) (round : Nat) : Nat → Nat → Bool
+  | 0, _ => false
+  | k+1, r =>
+    if Gen.C03.staleScanContinues r round then
+      if unlocks r then true else goScan unlocks round k (r + 1)
+    else false
+
+theorem goScan_spec (unlocks : Nat → Bool) (round : Nat) : ∀ (k r : Nat),
+    goScan unlocks round k r = true ↔ ∃ r', r ≤ r' ∧ r' < r + k ∧ r' ≤ round ∧ unlocks r' = true
+  | 0, r => by
+    simp only [goScan, Nat.add_zero]
+    constructor
+    · intro h; cases h
+    · rintro ⟨r', h1, h2, -⟩; omega
+  | k+1, r => by
+    unfold goScan Gen.C03.staleScanContinues
+    by_cases hc : r ≤ round
+    · simp only [hc, decide_true, if_true]
+      by_cases hu : unlocks r = true
+      · simp only [hu, if_true, true_iff]
+        exact ⟨r, Nat.le_refl _, by omega, hc, hu⟩
+      · simp only [hu, if_false, Bool.false_eq_true]
+        rw [goScan_spec unlocks round k (r + 1)]
+        constructor
+        · rintro ⟨r', h1, h2, h3, h4⟩
+          exact ⟨r', by omega, by omega, h3, h4⟩
+        · rintro ⟨r', h1, h2, h3, h4⟩
+          have : r' ≠ r := fun e => hu (e ▸ h4)
+          exact ⟨r', by omega, by omega, h3, h4⟩
+    · simp only [hc, decide_false, if_false, Bool.false_eq_true, false_iff]
+      rintro ⟨r', h1, -, h3, -⟩
+      omega
+
+/-- `prevotes.TwoThirdsMajority()` of round `r'` (a missing vote set: `continue`, no majority) and
+`cs.LockedBlock.HashesTo(blockID.Hash)` for the locked block `b`, combined by the regenerated test -/
+def scanUnlocks (cfg : Config) (σ : State) (b : Nat) (r' : Nat) : Bool :=
+  Gen.C03.staleScanUnlocks (maj23 cfg.powers (σ.slots .prevote σ.height r')).isSome
+    (match maj23 cfg.powers (σ.slots .prevote σ.height r') with
+     | some x => x == some b
+     | none => false)
+
+/-- **the scan of the model is the Go loop**: from the regenerated start `cs.LockedRound + 1`, while
+the regenerated `r <= round`, releasing on the regenerated `ok && !HashesTo` -/
+theorem stalePolka_eq_gen (cfg : Config) (σ : State) (b : Nat) (hw : σ.lockedRound + 1 < 2 ^ 32) :
+    stalePolka cfg σ b =
+      goScan (scanUnlocks cfg σ b) σ.round (σ.round + 1 - Gen.C03.staleScanFrom σ.lockedRound)
+        (Gen.C03.staleScanFrom σ.lockedRound) := by
+  have e1 : Gen.C03.staleScanFrom σ.lockedRound = σ.lockedRound + 1 := by
+    unfold Gen.C03.staleScanFrom U64.wrapN
+    simp only [Int.ofNat_eq_natCast]
+    omega
+  rw [e1]
+  have hu : ∀ r', scanUnlocks cfg σ b r' =
+      (match maj23 cfg.powers (σ.slots .prevote σ.height r') with
+       | some x => x != some b
+       | none => false) := by
+    intro r'
+    unfold scanUnlocks Gen.C03.staleScanUnlocks
+    cases maj23 cfg.powers (σ.slots .prevote σ.height r') with
+    | none => rfl
+    | some x => simp [bne]
+  cases hg : goScan (scanUnlocks cfg σ b) σ.round (σ.round + 1 - (σ.lockedRound + 1)) (σ.lockedRound + 1) with
+  | true =>
+    obtain ⟨r', h1, h2, h3, h4⟩ := (goScan_spec _ _ _ _).mp hg
+    unfold stalePolka
+    rw [List.any_eq_true]
+    refine ⟨r', List.mem_range.mpr (by omega), ?_⟩
+    rw [hu] at h4
+    simp only [Bool.and_eq_true, decide_eq_true_eq]
+    exact ⟨by omega, h4⟩
+  | false =>
+    cases hs : stalePolka cfg σ b with
+    | false => rfl
+    | true =>
+      exfalso
+      unfold stalePolka at hs
+      rw [List.any_eq_true] at hs
+      obtain ⟨r', hr', hc⟩ := hs
+      rw [List.mem_range] at hr'
+      simp only [Bool.and_eq_true, decide_eq_true_eq] at hc
+      have : goScan (scanUnlocks cfg σ b) σ.round (σ.round + 1 - (σ.lockedRound + 1)) (σ.lockedRound + 1) = true :=
+        (goScan_spec _ _ _ _).mpr ⟨r', by omega, by omega, by omega, by rw [hu]; exact hc.2⟩
+      rw [hg] at this
+      cases this
+
+/-- the scan runs only while locked, and releasing is `LockedRound = 0`, `LockedBlock = nil` -/
+theorem releaseStale_eq_gen (cfg : Config) (σ : State) (hw : σ.lockedRound + 1 < 2 ^ 32) :
+    releaseStale cfg σ =
+      if Gen.C03.staleScanGuard σ.locked.isSome then
+        match σ.locked with
+        | some lb =>
+          if goScan (scanUnlocks cfg σ lb.id) σ.round (σ.round + 1 - Gen.C03.staleScanFrom σ.lockedRound)
+              (Gen.C03.staleScanFrom σ.lockedRound) then
+            { σ with lockedRound := Gen.C03.staleUnlockRound, locked := none }
+          else σ
+        | none => σ
+      else σ := by
+  unfold releaseStale Gen.C03.staleScanGuard
+  cases hl : σ.locked with
+  | none => simp
+  | some lb =>
+    simp only [Option.isSome_some, if_true]
+    rw [stalePolka_eq_gen cfg σ lb.id hw]
+    rfl
 
 end KV.Cs.GenBridge
